@@ -57,9 +57,7 @@ fn cmd_seq(args: &[String]) {
     let cfg = gen::GenCfg { max_ops, max_keys };
     let mut ops_f = std::io::BufWriter::new(std::fs::File::create(&ops_path).unwrap());
     let mut impl_f = std::io::BufWriter::new(std::fs::File::create(&impl_path).unwrap());
-    let mut oracle_failures = vec![];
-    let mut panics = vec![];
-    let mut cost_failures = vec![];
+    let mut failures: Vec<String> = vec![];
     let mut total_ops = 0usize;
     let mut by_class: std::collections::BTreeMap<String, usize> = Default::default();
     let mut by_facade: std::collections::BTreeMap<String, usize> = Default::default();
@@ -95,9 +93,9 @@ fn cmd_seq(args: &[String]) {
         if samples.len() < 2 && res.tree_bins_seen > 0 {
             samples.push(format!("{} | {}", header, text.lines().take(12).collect::<Vec<_>>().join(" ; ")));
         }
-        oracle_failures.extend(res.oracle_failures);
-        panics.extend(res.panics_unexpected);
-        cost_failures.extend(res.cost_failures);
+        for f in res.failures {
+            failures.push(format!("{} [case-seed {}]", f, cseed));
+        }
         max_tree_cmp = max_tree_cmp.max(res.max_tree_cmp);
         tree_lookups += res.tree_lookups;
         max_bin = max_bin.max(res.max_bin);
@@ -110,8 +108,8 @@ fn cmd_seq(args: &[String]) {
         format!("{{{}}}", m.iter().map(|(k, v)| format!("{}:{}", json_str(k), v)).collect::<Vec<_>>().join(","))
     };
     let report = format!(
-        "{{\"cases\":{},\"ops\":{},\"distinct_nontrivial\":{},\"oracle_failures\":{},\"unexpected_panics\":{},\"cost_failures\":{},\"by_hash_class\":{},\"by_facade\":{},\"by_op\":{},\"max_tree_cmp\":{},\"tree_lookups\":{},\"max_bin\":{},\"tree_bin_snapshots\":{},\"resizes_seen\":{},\"samples\":{}}}",
-        cases, total_ops, nontrivial.len(), json_list(&oracle_failures), json_list(&panics), json_list(&cost_failures),
+        "{{\"cases\":{},\"ops\":{},\"distinct_nontrivial\":{},\"failures\":{},\"by_hash_class\":{},\"by_facade\":{},\"by_op\":{},\"max_tree_cmp\":{},\"tree_lookups\":{},\"max_bin\":{},\"tree_bin_snapshots\":{},\"resizes_seen\":{},\"samples\":{}}}",
+        cases, total_ops, nontrivial.len(), json_list(&failures),
         fmt_map(&by_class), fmt_map(&by_facade), fmt_map(&by_op), max_tree_cmp, tree_lookups, max_bin, tree_bins, resizes, json_list(&samples)
     );
     if let Some(p) = report_path {
@@ -136,7 +134,7 @@ fn cmd_seq_replay(args: &[String]) {
     for (op, line) in case.ops.iter().zip(res.lines.iter()) {
         println!("{}\t=> {}", op.line(&case), line);
     }
-    for f in res.oracle_failures.iter().chain(res.panics_unexpected.iter()).chain(res.cost_failures.iter()) {
+    for f in res.failures.iter() {
         println!("FAIL: {}", f);
     }
 }
